@@ -592,6 +592,28 @@ func syncAndJudge(k *mon.Case, a, b *node.Node, remote *p2p.AddrInfo, ev *evil, 
 	}
 	// B's tip arrives at A from that peer
 	tipB := node.CloneBlock(b.Tip())
+	// one honest offer in three announces a block below the peer's tip (the peer generated
+	// further blocks after the announcement went out): the segment the peer serves then runs
+	// beyond the announced block
+	below := 0
+	if mode == "honest" && tag == "" && ahead >= 4 && k.R.Intn(3) == 0 {
+		below = 1 + k.R.Intn(2)
+		if blk, err := b.Chain.DataAccess().GetBlockByHeight(tipB.Header.Height - uint32(below)); err == nil {
+			tipB = node.CloneBlock(blk)
+			k.Count("offers_below_peer_tip", 1)
+		} else {
+			below = 0
+		}
+	}
+	// reached: the node's tip is a block of the peer's chain at or above the announced block
+	reached := func() bool {
+		at := a.Tip().Header
+		if at.Height < tipB.Header.Height {
+			return false
+		}
+		hb, err := b.Chain.DataAccess().GetBlockHeaderByHeight(at.Height)
+		return err == nil && bytes.Equal(hb.ID, at.ID)
+	}
 	ta := a.Tip().Header
 	better := tipB.Header.MaxHeightPrevoted > ta.MaxHeightPrevoted || (tipB.Header.MaxHeightPrevoted == ta.MaxHeightPrevoted && tipB.Header.Height > ta.Height)
 	// harness-level bound on one sync (not a verdict): a peer that keeps answering with empty
@@ -603,7 +625,7 @@ func syncAndJudge(k *mon.Case, a, b *node.Node, remote *p2p.AddrInfo, ev *evil, 
 	pctx, pcancel := context.WithTimeout(context.Background(), bound)
 	perr := a.Exec.VerifProcess(pctx, tipB, remote.ID)
 	pcancel()
-	wit := map[string]any{"mode": mode, "prefix": prefix, "fork_a": forkA, "ahead_b": ahead, "validators": nv, "a_tip_after": a.Tip().Header.Height, "b_tip": b.Tip().Header.Height, "finalized_a": finA, "process_error": fmt.Sprint(perr), "phase": tag}
+	wit := map[string]any{"mode": mode, "prefix": prefix, "fork_a": forkA, "ahead_b": ahead, "validators": nv, "a_tip_after": a.Tip().Header.Height, "b_tip": b.Tip().Header.Height, "finalized_a": finA, "process_error": fmt.Sprint(perr), "phase": tag, "announced_block_below_peer_tip": below}
 	// finalized blocks of A never replaced
 	for h, id := range finalIDs {
 		hd, err := a.Chain.DataAccess().GetBlockHeaderByHeight(h)
@@ -625,7 +647,7 @@ func syncAndJudge(k *mon.Case, a, b *node.Node, remote *p2p.AddrInfo, ev *evil, 
 			// chain conflicts with final blocks and must NOT be adopted (checked above: every
 			// final block is still in place)
 			k.Count("peer_chain_conflicts_with_finalized_blocks", 1)
-			if bytes.Equal(a.Tip().Header.ID, b.Tip().Header.ID) {
+			if reached() {
 				k.Violation("converge:adopted-chain-conflicting-with-finalized-blocks", "the node switched to a chain that forks below its finalized height", wit)
 			}
 			return wit, false
@@ -639,7 +661,7 @@ func syncAndJudge(k *mon.Case, a, b *node.Node, remote *p2p.AddrInfo, ev *evil, 
 		// fast sync legitimately gives up ("wait for new block") when the common block lies more
 		// than two rounds below either tip; the node must then get there through the peer's next
 		// blocks. Bounded progress: within 2 rounds + 2 further blocks of the peer.
-		if bytes.Equal(a.Tip().Header.ID, b.Tip().Header.ID) {
+		if reached() {
 			k.Count(fmt.Sprintf("converged_at_first_offer:forkA<=%d:ahead<=%d", (forkA+nv-1)/nv, (ahead+nv-1)/nv), 1)
 		} else if forkA <= 2*nv-2 && ahead <= 2*nv-2 {
 			// both tips lie within two rounds of the common block: fast sync applies to this very
@@ -651,7 +673,7 @@ func syncAndJudge(k *mon.Case, a, b *node.Node, remote *p2p.AddrInfo, ev *evil, 
 		} else {
 			k.Count(fmt.Sprintf("first_offer_not_followed:forkA<=%d:ahead<=%d:prefix>0=%v:err=%.40s", (forkA+nv-1)/nv, (ahead+nv-1)/nv, prefix > 0, fmt.Sprint(perr)), 1)
 		}
-		for extra := 0; extra < 2*nv+2 && !bytes.Equal(a.Tip().Header.ID, b.Tip().Header.ID); extra++ {
+		for extra := 0; extra < 2*nv+2 && !reached(); extra++ {
 			nb, err := plain(b, rand.New(rand.NewSource(int64(extra)+int64(prefix))))
 			if err != nil || b.Apply(nb) != nil {
 				break
@@ -662,7 +684,7 @@ func syncAndJudge(k *mon.Case, a, b *node.Node, remote *p2p.AddrInfo, ev *evil, 
 			ccancel()
 		}
 		wit["a_tip_after"], wit["b_tip"] = a.Tip().Header.Height, b.Tip().Header.Height
-		if !bytes.Equal(a.Tip().Header.ID, b.Tip().Header.ID) {
+		if !reached() {
 			k.Violation("converge:honest-peer-not-followed", "node offered a better valid chain by an honest peer did not end on that chain", wit)
 		} else {
 			k.Count("converged", 1)
